@@ -93,6 +93,13 @@ func ArrResult() []any {
 	return []any{1, "x<y", []any{2.5, nil, true}, map[string]any{"k": int64(7), "n": []any{"deep"}}}
 }
 
+// PanicArg as the last argument makes every harness function panic with PanicMsg after it has
+// recorded the call.
+const (
+	PanicArg = "PANIC!"
+	PanicMsg = "sim: the user's function panicked (asked to by its last argument)"
+)
+
 // Catalogue is the behaviour of harness function #id for a receiver type: a
 // pure function of (id, receiver, arguments). The registered closures and the
 // C20 reference model both call it.
@@ -177,11 +184,16 @@ func (w *World) register(op Op) error {
 	id := op.Fn
 	note := func(recv any, args []any) {
 		simrt.Yield(simrt.SiteUser)
-		if rec.Off {
-			return
+		if !rec.Off {
+			// snapshot: a function may mutate what it was given
+			rec.Calls = append(rec.Calls, Call{id, copyAny(recv), copyAny([]any(args)).([]any)})
 		}
-		// snapshot: a function may mutate what it was given
-		rec.Calls = append(rec.Calls, Call{id, copyAny(recv), copyAny([]any(args)).([]any)})
+		// a user's function may fail the hard way; the caller of the render recovers (net/http does)
+		if len(args) > 0 {
+			if s, ok := args[len(args)-1].(string); ok && s == PanicArg {
+				panic(PanicMsg)
+			}
+		}
 	}
 	switch op.Recv {
 	case "str":
